@@ -75,6 +75,7 @@ def plan(tier):
 def required(tier):
     return {
         "hints.constructions_compared": 300,
+        "roundtrip.dynamic_terminals": 100,
         "hints.cache_reused": 50,
         "hints.cache_written": 100,
         "hints.probes_with_hint": 500,
@@ -704,6 +705,16 @@ def roundtrips(ctx):
             if rng.random() < 0.3:
                 meta[pi] = rng.choice(["dynamic", "left", "right, 5", "dynamic, 7"])
     text = g.text(prod_meta=meta)
+    if rng.random() < 0.4:
+        # dynamic marks on terminals (they mark states and conflicts too)
+        lines = text.split("\n")
+        if "terminals" in lines:
+            k = lines.index("terminals")
+            for i in range(k + 1, len(lines)):
+                if lines[i].endswith(";") and "{" not in lines[i] and rng.random() < 0.4:
+                    lines[i] = lines[i][:-1] + " {dynamic};"
+                    ctx.count("roundtrip.dynamic_terminals")
+            text = "\n".join(lines)
     tmp = tempfile.mkdtemp(prefix="pgv-c12r-")
     try:
         for itemset, ps, pse, ld in [(LR_1, False, False, None), (LR_0, True, True, True), (LR_1, True, False, False), (LR_0, False, True, None)]:
@@ -748,8 +759,8 @@ def roundtrips(ctx):
 
             def conf(t):
                 return (
-                    sorted((c.state.state_id, c.term.name, tuple(sorted(p.prod_id for p in c.productions))) for c in t.sr_conflicts),
-                    sorted((c.state.state_id, c.term.name, tuple(sorted(p.prod_id for p in c.productions))) for c in t.rr_conflicts),
+                    sorted((c.state.state_id, c.term.name, tuple(sorted(p.prod_id for p in c.productions)), bool(c.dynamic)) for c in t.sr_conflicts),
+                    sorted((c.state.state_id, c.term.name, tuple(sorted(p.prod_id for p in c.productions)), bool(c.dynamic)) for c in t.rr_conflicts),
                     [sorted(x.name for x in s.dynamic) for s in t.states],
                     [list(s.finish_flags) for s in t.states],
                     [[(k.name, [(a.action, a.state.state_id if a.state else None, a.prod.prod_id if a.prod else None) for a in v]) for k, v in s.actions.items()] for s in t.states],
